@@ -32,7 +32,7 @@ CLAIMED = {
   engine="scripted-rng-simulator",
   technique="deterministic simulation: executions of the normalised program by Polar's own evaluator under a scripted RNG seam, seeded adversarial/coverage resolution schedules far past guard exit; state invariant value-in-type monitored after every assignment; independent exact evaluator confirms",
   level=dict(category="exploration", design_ref="DESIGN.md §4.3",
-    text="Seeded search over generated programs (biased to guards over flags, multiply-assigned variables, _old copies, saturating counters, value sets outgrowing the typer's caps) x type_fp_iterations swarm x resolution schedules. The real parser, normaliser and FiniteFixedPointTyper produce the IR and the types; the IR is executed for 3-12 iterations by Assignment.evaluate / Condition.evaluate under the seam and `value in inferred type` is checked after every single assignment, including all iterations after the (collapsed) loop guard is false. A violation is reported only when an independent exact-rational evaluator of the same IR reaches the same value. Known finding F3 (alias default after guard exit) is matched by signature and printed as KNOWN-FINDING. Sampling, not enumeration."),
+    text="Seeded search over generated programs (biased to guards over flags, multiply-assigned variables, _old copies, saturating counters, value sets outgrowing the typer's caps) x type_fp_iterations swarm x resolution schedules. The real parser, normaliser and FiniteFixedPointTyper produce the IR and the types; the IR is executed for 3-12 iterations by Assignment.evaluate / Condition.evaluate under the seam and `value in inferred type` is checked after every single assignment, including all iterations after the (collapsed) loop guard is false. A violation is reported only when an independent exact-rational evaluator of the same IR reaches the same value. Known finding F13 (a variable without initial assignment keeps its symbolic initial value while the guard is false) is matched by signature and printed as KNOWN-FINDING; the consequence clause is checked by two further oracles (powers and comparisons rewritten through the value set agree with the originals on every value of the set). Sampling, not enumeration."),
   note="Trusted: sim/c05.py ExactIR (reads IR object fields, exact rationals), sim/refinterp.py for the source-level guard, symengine substitution as arithmetic library. User-declared types are taken as given. The IR is given the sequential guarded-assignment semantics its printed form denotes."),
 "C20": dict(
   engine="session-simulator",
